@@ -3,7 +3,7 @@
    writes exactly what the reference interpreter [expand] produces.  The loop items indexed by Level are related
    to the binding list of the interpreter by [R]; getValue's scan of the printed path recovers (name, indices). *)
 From Coq Require Import NArith ZArith List Bool Arith Lia ZifyBool ZifyNat ZifyN.
-From Qv Require Import gen.Tables gen.Tables_tparse EscapeModel TmplModel TmplRender TmplProofs TparseModel TrenderModel TrenderProofs TrenderInst TfullModel.
+From Qv Require Import gen.Tables gen.Tables_expr gen.Tables_digit gen.Tables_tparse EscapeModel TmplModel TmplRender TmplProofs TparseModel TrenderModel TrenderProofs TrenderInst TfullModel.
 Import ListNotations.
 Ltac Zify.zify_post_hook ::= Z.div_mod_to_equations.
 
@@ -39,6 +39,32 @@ Ltac assoc := repeat (rewrite <- app_assoc || rewrite <- app_comm_cons); cbn [ap
 Lemma rsub_eq : forall site a b, b <= a -> rsub site a b = ROk (a - b).
 Proof. intros site a b H. unfold rsub. destruct (Nat.leb_spec b a); [reflexivity|lia]. Qed.
 
+(* unfolding equations for the if tag *)
+Lemma wf_TIf : forall names depth c body more, wf_node1 names depth (TIf c body more) =
+  wf_expr names c && forallb (wf_node1 names (S depth)) body && wf_more names depth more.
+Proof. reflexivity. Qed.
+Lemma wf_more_some : forall names depth e b r, wf_more names depth ((Some e, b) :: r) =
+  wf_expr names e && forallb (wf_node1 names (S depth)) b && wf_more names depth r.
+Proof. reflexivity. Qed.
+Lemma wf_more_none : forall names depth b r, wf_more names depth ((None, b) :: r) =
+  forallb (wf_node1 names (S depth)) b && match r with [] => true | _ => false end.
+Proof. reflexivity. Qed.
+Lemma build_TIf : forall env depth off c body more, build env depth off (TIf c body more) =
+  let co := off + 10 + length (print_expr c) + 2 in
+  let ce := co + length (print_nodes body) in
+  [PIf off (off + length (print_node (TIf c body more)))
+       (PCase co ce (qexpr_of env (off + 10) c) (build_list env (S depth) co body) :: build_more env depth ce more)].
+Proof. reflexivity. Qed.
+Lemma build_more_some : forall env depth o e b r, build_more env depth o ((Some e, b) :: r) =
+  let bo := o + 15 + length (print_expr e) + 2 in
+  PCase bo (bo + length (print_nodes b)) (qexpr_of env (o + 15) e) (build_list env (S depth) bo b) ::
+  build_more env depth (bo + length (print_nodes b)) r.
+Proof. reflexivity. Qed.
+Lemma build_more_none : forall env depth o b r, build_more env depth o ((None, b) :: r) =
+  let bo := o + 6 in
+  PCase bo (bo + length (print_nodes b)) [] (build_list env (S depth) bo b) :: build_more env depth (bo + length (print_nodes b)) r.
+Proof. reflexivity. Qed.
+
 Section Sem.
   Variable auto : bool.
   Variable w : N.
@@ -47,9 +73,9 @@ Section Sem.
   Notation len := (length content).
   Notation gv := (get_value jv get_key content root).
   Notation rtag := (render_tag jv get_key jv_members (jv_text auto w) char_and_length (fun v k => group_by k v) sort_set
-                               (var_text_cfg auto w) no_math no_cond content root).
+                               (var_text_cfg auto w) (jv_math content root) (jv_cond content root) content root).
   Notation rlist := (render_list jv get_key jv_members (jv_text auto w) char_and_length (fun v k => group_by k v) sort_set
-                                 (var_text_cfg auto w) no_math no_cond content root).
+                                 (var_text_cfg auto w) (jv_math content root) (jv_cond content root) content root).
 
   (* ---- the scan loops of getValue on a printed piece ---- *)
   Lemma scan_to_find : forall site c s fuel base off lim (rest : list N),
@@ -442,7 +468,167 @@ Section Sem.
   Lemma grow_lt : forall (its : list (item jv)) lv, N.to_nat lv < length (grow jv its lv).
   Proof. intros its lv. unfold grow. rewrite app_length, repeat_length. lia. Qed.
 
-  (* ---- nodes and lists ---- *)
+
+  (* ---- expressions: the evaluator over the QExpression arrays = TmplModel.eval_expr ---- *)
+  Notation QV := (q_val content root).
+  Lemma q_var_eq : forall env ctx items p pre post,
+    content = pre ++ (s_var_open ++ print_path p ++ s_close) ++ post ->
+    wf_path p = true -> uniq (map fst env) p = true -> R items env ctx ->
+    q_var content root items (vt_of env (length pre + 5) p) = fst (resolve root ctx p).
+  Proof.
+    intros env ctx items p pre post Hc Hw Hu HR. unfold q_var.
+    assert (Hlook := lookup env ctx items p (pre ++ s_var_open) (s_close ++ post)).
+    rewrite app_length in Hlook. cbn [length s_var_open] in Hlook.
+    rewrite Hlook; [reflexivity| |exact Hw|exact Hu|exact HR]. rewrite Hc. assoc.
+  Qed.
+
+  Lemma wf_epath_wf : forall p, wf_epath p = true -> wf_path p = true.
+  Proof. intros p H. unfold wf_epath in H. apply andb_prop in H. exact (proj1 H). Qed.
+
+  Lemma q_op_operand : forall env oper o a, q_op (q_operand env oper o a) = oper.
+  Proof. intros env oper o a. destruct a; reflexivity. Qed.
+
+  Lemma q_arith_eq : forall op x y, (op <= 10)%N -> N.eqb op op_eq || N.eqb op op_ne = false ->
+    q_arith (opq op) x y = Some (arith op x y).
+  Proof.
+    intros op x y H Hne. destruct op as [|p]; [reflexivity|].
+    do 4 (try destruct p as [p|p|]); cbn in H; try lia; try discriminate Hne; reflexivity.
+  Qed.
+  Lemma opq_eq : forall op, (op <= 10)%N ->
+    N.eqb (opq op) op_Equal = N.eqb op op_eq /\ N.eqb (opq op) op_NotEqual = N.eqb op op_ne.
+  Proof.
+    intros op H. destruct op as [|p]; [split; reflexivity|].
+    do 4 (try destruct p as [p|p|]); cbn in H; try lia; split; reflexivity.
+  Qed.
+
+  Lemma q_val_operand : forall env ctx items a oper pre post,
+    content = pre ++ print_operand a ++ post -> wf_expr (map fst env) a = true -> R items env ctx ->
+    QV items (q_operand env oper (length pre) a) = eval_operand root ctx a.
+  Proof.
+    intros env ctx items a; induction a as [n|p|op a IHa b IHb]; intros oper pre post Hc Hwf HR; cbn [wf_expr print_operand] in *.
+    - reflexivity.
+    - apply andb_prop in Hwf. destruct Hwf as [Hw Hu]. cbn [q_operand q_val eval_operand].
+      rewrite (q_var_eq env ctx items p pre post Hc (wf_epath_wf p Hw) Hu HR). reflexivity.
+    - apply andb_prop in Hwf. destruct Hwf as [Hwf Hwb]. apply andb_prop in Hwf. destruct Hwf as [Hop Hwa]. apply N.leb_le in Hop.
+      assert (Hca : content = (pre ++ [40%N]) ++ print_operand a ++ ([32%N] ++ op_text op ++ [32%N] ++ print_operand b ++ [41%N] ++ post))
+        by (rewrite Hc; assoc).
+      assert (Hcb : content = (pre ++ [40%N] ++ print_operand a ++ [32%N] ++ op_text op ++ [32%N]) ++ print_operand b ++ ([41%N] ++ post))
+        by (rewrite Hc; assoc).
+      assert (Hla : length (pre ++ [40%N]) = length pre + 1) by (rewrite app_length; reflexivity).
+      assert (Hlb : length (pre ++ [40%N] ++ print_operand a ++ [32%N] ++ op_text op ++ [32%N])
+                    = length pre + 1 + length (print_operand a) + 1 + length (op_text op) + 1)
+        by (repeat rewrite app_length; cbn [length]; lia).
+      pose proof (fun o' => IHa o' _ _ Hca Hwa HR) as Ea. rewrite Hla in Ea.
+      pose proof (fun o' => IHb o' _ _ Hcb Hwb HR) as Eb. rewrite Hlb in Eb.
+      cbn [q_operand]. cbn [q_val]. rewrite q_op_operand. rewrite Ea, Eb.
+      destruct (opq_eq op Hop) as [E1 E2]. rewrite E1, E2. cbn [eval_operand].
+      destruct (N.eqb op op_eq || N.eqb op op_ne) eqn:Eq.
+      + (* == / != *)
+        assert (Hsa : (match q_operand env (opq op) (length pre + 1) a with
+                       | QVar _ v => match q_var content root items v with Some y => SVal y | None => SNone end
+                       | _ => num_side (eval_operand root ctx a) end)
+                      = match a with EVar p => var_side root ctx p | _ => num_side (eval_operand root ctx a) end).
+        { destruct a as [na|pa|oa a1 a2]; cbn [q_operand]; try reflexivity.
+          cbn [wf_expr] in Hwa. apply andb_prop in Hwa. destruct Hwa as [Hw Hu]. cbn [print_operand] in Hca.
+          rewrite <- Hla. rewrite (q_var_eq env ctx items pa _ _ Hca (wf_epath_wf pa Hw) Hu HR). reflexivity. }
+        assert (Hsb : (match q_operand env op_NoOp (length pre + 1 + length (print_operand a) + 1 + length (op_text op) + 1) b with
+                       | QVar _ v => match q_var content root items v with Some y => SVal y | None => SNone end
+                       | _ => num_side (eval_operand root ctx b) end)
+                      = match b with EVar p => var_side root ctx p | _ => num_side (eval_operand root ctx b) end).
+        { destruct b as [nb|pb|ob b1 b2]; cbn [q_operand]; try reflexivity.
+          cbn [wf_expr] in Hwb. apply andb_prop in Hwb. destruct Hwb as [Hw Hu]. cbn [print_operand] in Hcb.
+          rewrite <- Hlb. rewrite (q_var_eq env ctx items pb _ _ Hcb (wf_epath_wf pb Hw) Hu HR). reflexivity. }
+        rewrite Hsa, Hsb. reflexivity.
+      + destruct (eval_operand root ctx a) as [x|]; [|reflexivity]. destruct (eval_operand root ctx b) as [y|]; [|reflexivity].
+        apply q_arith_eq; assumption.
+  Qed.
+
+  Lemma jv_cond_eq : forall k ex items, jv_cond content root k ex items =
+    match q_top content root items ex with Some z => Some (z >? 0)%Z | None => None end.
+  Proof. reflexivity. Qed.
+
+  Lemma q_top_two : forall items a b, q_top content root items [a; b] = QV items (QSub op_NoOp [a; b]).
+  Proof. intros items a b. destruct a; reflexivity. Qed.
+
+  Lemma q_top_expr : forall env ctx items e pre post,
+    content = pre ++ print_expr e ++ post -> wf_expr (map fst env) e = true -> R items env ctx ->
+    q_top content root items (qexpr_of env (length pre) e) = eval_expr root ctx e.
+  Proof.
+    intros env ctx items e pre post Hc Hwf HR. destruct e as [n|p|op a b]; cbn [print_expr qexpr_of] in *.
+    - reflexivity.
+    - cbn [wf_expr] in Hwf. apply andb_prop in Hwf. destruct Hwf as [Hw Hu]. cbn [q_operand q_top eval_expr].
+      cbn [print_operand] in Hc. rewrite (q_var_eq env ctx items p pre post Hc (wf_epath_wf p Hw) Hu HR). reflexivity.
+    - (* the same computation as a parenthesised operand, without the parentheses *)
+      cbn [wf_expr] in Hwf. pose proof Hwf as Hwf0.
+      apply andb_prop in Hwf. destruct Hwf as [Hwf Hwb]. apply andb_prop in Hwf. destruct Hwf as [Hop Hwa]. apply N.leb_le in Hop.
+      assert (Hca : content = pre ++ print_operand a ++ ([32%N] ++ op_text op ++ [32%N] ++ print_operand b ++ post)) by (rewrite Hc; assoc).
+      assert (Hcb : content = (pre ++ print_operand a ++ [32%N] ++ op_text op ++ [32%N]) ++ print_operand b ++ post) by (rewrite Hc; assoc).
+      assert (Hlb : length (pre ++ print_operand a ++ [32%N] ++ op_text op ++ [32%N])
+                    = length pre + length (print_operand a) + 1 + length (op_text op) + 1)
+        by (repeat rewrite app_length; cbn [length]; lia).
+      pose proof (fun o' => q_val_operand env ctx items a o' _ _ Hca Hwa HR) as Ea.
+      pose proof (fun o' => q_val_operand env ctx items b o' _ _ Hcb Hwb HR) as Eb. rewrite Hlb in Eb.
+      rewrite q_top_two. cbn [q_val]. rewrite q_op_operand. rewrite Ea, Eb.
+      destruct (opq_eq op Hop) as [E1 E2]. rewrite E1, E2. cbn [eval_expr eval_operand].
+      destruct (N.eqb op op_eq || N.eqb op op_ne) eqn:Eq.
+      + assert (Hsa : (match q_operand env (opq op) (length pre) a with
+                       | QVar _ v => match q_var content root items v with Some y => SVal y | None => SNone end
+                       | _ => num_side (eval_operand root ctx a) end)
+                      = match a with EVar p => var_side root ctx p | _ => num_side (eval_operand root ctx a) end).
+        { destruct a as [na|pa|oa a1 a2]; cbn [q_operand]; try reflexivity.
+          cbn [wf_expr] in Hwa. apply andb_prop in Hwa. destruct Hwa as [Hw Hu]. cbn [print_operand] in Hca.
+          rewrite (q_var_eq env ctx items pa _ _ Hca (wf_epath_wf pa Hw) Hu HR). reflexivity. }
+        assert (Hsb : (match q_operand env op_NoOp (length pre + length (print_operand a) + 1 + length (op_text op) + 1) b with
+                       | QVar _ v => match q_var content root items v with Some y => SVal y | None => SNone end
+                       | _ => num_side (eval_operand root ctx b) end)
+                      = match b with EVar p => var_side root ctx p | _ => num_side (eval_operand root ctx b) end).
+        { destruct b as [nb|pb|ob b1 b2]; cbn [q_operand]; try reflexivity.
+          cbn [wf_expr] in Hwb. apply andb_prop in Hwb. destruct Hwb as [Hw Hu]. cbn [print_operand] in Hcb.
+          rewrite <- Hlb. rewrite (q_var_eq env ctx items pb _ _ Hcb (wf_epath_wf pb Hw) Hu HR). reflexivity. }
+        rewrite Hsa, Hsb. reflexivity.
+      + destruct (eval_operand root ctx a) as [x|]; [|reflexivity]. destruct (eval_operand root ctx b) as [y|]; [|reflexivity].
+        apply q_arith_eq; assumption.
+  Qed.
+
+
+  Lemma env_ok_S : forall d env, env_ok d env -> env_ok (S d) env.
+  Proof. intros d env H nm li Hin. specialize (H nm li Hin). lia. Qed.
+
+  Lemma qexpr_of_match : forall A env o e (x : A) (f : list qexpr -> A),
+    match qexpr_of env o e with [] => x | _ :: _ => f (qexpr_of env o e) end = f (qexpr_of env o e).
+  Proof. intros A env o e x f. destruct e; reflexivity. Qed.
+
+  (* {math:expr} *)
+  Lemma math_node : forall env ctx items e pre lit post,
+    content = pre ++ lit ++ print_node (TMath e) ++ post ->
+    wf_expr (map fst env) e = true -> R items env ctx ->
+    rtag (PMath (length pre + length lit) (length pre + length lit + length (print_node (TMath e)))
+                (qexpr_of env (length pre + length lit + 6) e)) (length pre) items =
+    ROk (lit ++ ENode ctx (TMath e), length pre + length lit + length (print_node (TMath e)), items).
+  Proof.
+    intros env ctx items e pre lit post Hc Hwf HR.
+    assert (Hlen : length content = length pre + length lit + length (print_node (TMath e)) + length post)
+      by (rewrite Hc; repeat rewrite app_length; lia).
+    cbn [render_tag]. unfold render_math.
+    rewrite wslice_eq by lia. cbn [rbind].
+    rewrite (sub_lit content pre lit (print_node (TMath e) ++ post)) by (try exact Hc; reflexivity).
+    rewrite (qexpr_of_match _ env (length pre + length lit + 6) e None
+               (fun ex => jv_math content root (length pre + length lit) ex items)).
+    unfold jv_math.
+    assert (Hq := q_top_expr env ctx items e (pre ++ lit ++ s_math_open) (s_close ++ post)).
+    repeat rewrite app_length in Hq. cbn [length s_math_open] in Hq.
+    replace (length pre + (length lit + 6)) with (length pre + length lit + 6) in Hq by lia.
+    rewrite Hq; [| |exact Hwf|exact HR].
+    2:{ rewrite Hc, print_node_TMath. assoc. }
+    cbn [expand_node leaf_out]. unfold math_out.
+    destruct (eval_expr root ctx e) as [z|]; [reflexivity|].
+    rewrite wslice_eq by lia. cbn [rbind].
+    rewrite (sub_node content pre lit (print_node (TMath e)) post) by (try exact Hc; reflexivity). reflexivity.
+  Qed.
+
+  Notation rpick := (render_pick jv get_key jv_members (jv_text auto w) char_and_length (fun v k => group_by k v) sort_set
+                                 (var_text_cfg auto w) (jv_math content root) (jv_cond content root) content root).
+
   Definition node_sem (x : tnode) : Prop :=
     forall depth env ctx items pre lit post,
       wf_node1 (map fst env) depth x = true -> is_text x = false ->
@@ -452,6 +638,7 @@ Section Sem.
         rtag t (length pre) items = ROk (lit ++ ENode ctx x, length pre + length lit + length (print_node x), items') /\
         agree depth items items'.
 
+  (* ---- nodes and lists ---- *)
   Lemma list_sem : forall l, Forall node_sem l ->
     forall depth env ctx items pre lit post,
       forallb (wf_node1 (map fst env) depth) l = true ->
@@ -493,6 +680,82 @@ Section Sem.
         replace (length (pre ++ lit ++ print_node x) + length (@nil N)) with (length (pre ++ lit ++ print_node x)) at 2 by len.
         rewrite E. cbn [rbind fst snd]. rewrite <- app_assoc. reflexivity.
   Qed.
+
+  (* the else cases *)
+  Lemma pick_sem : forall more, Forall (fun cb : option expr * list tnode => Forall node_sem (snd cb)) more ->
+    forall depth env ctx items prc post,
+      wf_more (map fst env) depth more = true -> content = prc ++ print_more more ++ post ->
+      R items env ctx -> env_ok depth env ->
+      exists items', rpick items (build_more env depth (length prc) more) = ROk (pick_e auto w root ctx more, items') /\
+                     agree depth items items'.
+  Proof.
+    intros more Hm. induction Hm as [|[oe b] r Hb Hr IH]; intros depth env ctx items prc post Hwf Hc HR He.
+    - exists items. split; [reflexivity|apply agree_refl].
+    - cbn [snd] in Hb. destruct oe as [e|].
+      + rewrite wf_more_some in Hwf. apply andb_prop in Hwf. destruct Hwf as [Hwf Hwr]. apply andb_prop in Hwf. destruct Hwf as [Hwe Hwb].
+        cbn [print_more] in Hc. rewrite build_more_some. cbv zeta. rewrite render_pick_cons.
+        rewrite (qexpr_of_match _ env (length prc + 15) e true
+                   (fun ex => match jv_cond content root (length prc + 15 + length (print_expr e) + 2) ex items with Some true => true | _ => false end)).
+        unfold jv_cond.
+        assert (Hq := q_top_expr env ctx items e (prc ++ s_elseif_open) (s_tag_close ++ print_nodes b ++ print_more r ++ post)).
+        rewrite app_length in Hq. cbn [length s_elseif_open] in Hq. rewrite Hq; [| |exact Hwe|exact HR].
+        2:{ rewrite Hc. assoc. }
+        rewrite pick_e_some. unfold truth.
+        set (prc' := prc ++ s_elseif_open ++ print_expr e ++ s_tag_close).
+        assert (Hl' : length prc' = length prc + 15 + length (print_expr e) + 2)
+          by (unfold prc'; repeat rewrite app_length; cbn [length s_elseif_open s_tag_close]; lia).
+        assert (Hbody : exists items', rlist (build_list env (S depth) (length prc + 15 + length (print_expr e) + 2) b)
+                                 (length prc + 15 + length (print_expr e) + 2)
+                                 (length prc + 15 + length (print_expr e) + 2 + length (print_nodes b)) items
+                               = ROk (ENodes ctx b, items') /\ agree depth items items').
+        { assert (Hcb : content = prc' ++ [] ++ print_nodes b ++ (print_more r ++ post)) by (rewrite Hc; unfold prc'; assoc).
+          destruct (list_sem b Hb (S depth) env ctx items prc' [] (print_more r ++ post) Hwb Hcb HR (env_ok_S _ _ He)) as (i' & E & Ha).
+          cbn [length app] in E. rewrite Nat.add_0_r in E. rewrite Hl' in E. exists i'. split; [exact E|apply (agree_le depth (S depth)); [lia|exact Ha]]. }
+        destruct (eval_expr root ctx e) as [z|].
+        * destruct (z >? 0)%Z; [exact Hbody|].
+          replace (length prc + 15 + length (print_expr e) + 2 + length (print_nodes b)) with (length (prc' ++ print_nodes b))
+            by (rewrite app_length, Hl'; reflexivity).
+          apply (IH depth env ctx items (prc' ++ print_nodes b) post Hwr); [rewrite Hc; unfold prc'; assoc|exact HR|exact He].
+        * replace (length prc + 15 + length (print_expr e) + 2 + length (print_nodes b)) with (length (prc' ++ print_nodes b))
+            by (rewrite app_length, Hl'; reflexivity).
+          apply (IH depth env ctx items (prc' ++ print_nodes b) post Hwr); [rewrite Hc; unfold prc'; assoc|exact HR|exact He].
+      + rewrite wf_more_none in Hwf. apply andb_prop in Hwf. destruct Hwf as [Hwb _].
+        cbn [print_more] in Hc. rewrite build_more_none. cbv zeta. rewrite render_pick_cons. rewrite pick_e_none.
+        set (prc' := prc ++ s_else).
+        assert (Hl' : length prc' = length prc + 6) by (unfold prc'; rewrite app_length; cbn [length s_else]; lia).
+        assert (Hcb : content = prc' ++ [] ++ print_nodes b ++ (print_more r ++ post)) by (rewrite Hc; unfold prc'; assoc).
+        destruct (list_sem b Hb (S depth) env ctx items prc' [] (print_more r ++ post) Hwb Hcb HR (env_ok_S _ _ He)) as (i' & E & Ha).
+        cbn [length app] in E. rewrite Nat.add_0_r in E. rewrite Hl' in E. exists i'. split; [exact E|apply (agree_le depth (S depth)); [lia|exact Ha]].
+  Qed.
+
+
+  (* ---- render(first, last) on a part of the sub tags of an inline if ---- *)
+  Notation rrange := (render_range jv get_key jv_members (jv_text auto w) char_and_length (fun v k => group_by k v) sort_set
+                                   (var_text_cfg auto w) (jv_math content root) (jv_cond content root) content root).
+  Lemma rr_take_all : forall A B o e items, rrange (A ++ B) 0 (length A) o e items = rlist A o e items.
+  Proof.
+    intros A; induction A as [|x A IH]; intros B o e items.
+    - destruct B; reflexivity.
+    - cbn [app length render_range render_list]. destruct (rtag x o items) as [[[o1 off1] it1]|err]; [|reflexivity].
+      cbn [rbind]. rewrite IH. reflexivity.
+  Qed.
+  Lemma rr_skip : forall A B t o e items, rrange (A ++ B) (length A) t o e items = rrange B 0 t o e items.
+  Proof. intros A; induction A as [|x A IH]; intros B t o e items; [reflexivity|]. cbn [app length render_range]. apply IH. Qed.
+  Lemma rr_all : forall B t o e items, length B <= t -> rrange B 0 t o e items = rlist B o e items.
+  Proof.
+    intros B; induction B as [|x B IH]; intros t o e items H; [reflexivity|].
+    cbn [length] in H. destruct t as [|t]; [lia|]. cbn [render_range render_list].
+    destruct (rtag x o items) as [[[o1 off1] it1]|err]; [|reflexivity]. cbn [rbind]. rewrite IH by lia. reflexivity.
+  Qed.
+
+  Lemma ntags_build : forall env depth o l, forallb inl_ok l = true -> length (build_list env depth o l) = ntags l.
+  Proof.
+    intros env depth o l; revert o; induction l as [|x r IH]; intros o H; [reflexivity|].
+    cbn [forallb] in H. apply andb_prop in H. destruct H as [Hx Hr].
+    cbn [build_list]. rewrite app_length, (IH _ Hr). unfold ntags. cbn [filter].
+    destruct x; try discriminate Hx; reflexivity.
+  Qed.
+
   Lemma wf_path_len : forall p, wf_path p = true -> 1 <= length (print_path p) <= 255.
   Proof.
     intros [nm idx] H. unfold wf_path in H. cbn [fst snd] in H.
@@ -502,7 +765,7 @@ Section Sem.
   Qed.
 
   Notation reach := (render_each jv get_key jv_members (jv_text auto w) char_and_length (fun v k => group_by k v) sort_set
-                                 (var_text_cfg auto w) no_math no_cond content root).
+                                 (var_text_cfg auto w) (jv_math content root) (jv_cond content root) content root).
 
   Lemma node_sem_all : forall x, node_sem x.
   Proof.
@@ -514,11 +777,74 @@ Section Sem.
     - intros p depth env ctx items pre lit post Hwf _ Hc HR He. cbn [wf_node1] in Hwf. apply andb_prop in Hwf. destruct Hwf as [Hw Hu].
       exists (PRaw (vt_of env (length pre + length lit + 5) p)), items. split; [reflexivity|]. split; [|apply agree_refl].
       apply (raw_node env ctx items p pre lit post Hc Hw Hu HR).
-    - intros e depth env ctx items pre lit post Hwf. discriminate Hwf.
+    - (* math *)
+      intros e depth env ctx items pre lit post Hwf _ Hc HR He. cbn [wf_node1] in Hwf.
+      eexists _, items. split; [reflexivity|]. split; [|apply agree_refl].
+      replace (length pre + length lit + length (print_node (TMath e))) with (length pre + length lit + length (print_node (TMath e))) by reflexivity.
+      apply (math_node env ctx items e pre lit post Hc Hwf HR).
     - intros p subs depth env ctx items pre lit post Hwf. discriminate Hwf.
     - intros c t fl _ _ depth env ctx items pre lit post Hwf. discriminate Hwf.
     - intros c t _ depth env ctx items pre lit post Hwf. discriminate Hwf.
-    - intros c body more _ _ depth env ctx items pre lit post Hwf. discriminate Hwf.
+    - (* if *)
+      intros c body more Hb Hm depth env ctx items pre lit post Hwf _ Hc HR He.
+      rewrite wf_TIf in Hwf. apply andb_prop in Hwf. destruct Hwf as [Hwf Hwm]. apply andb_prop in Hwf. destruct Hwf as [Hwc Hwb].
+      rewrite build_TIf. cbv zeta. eexists _.
+      cut (exists items', rtag (PIf (length pre + length lit) (length pre + length lit + length (print_node (TIf c body more)))
+               (PCase (length pre + length lit + 10 + length (print_expr c) + 2)
+                      (length pre + length lit + 10 + length (print_expr c) + 2 + length (print_nodes body))
+                      (qexpr_of env (length pre + length lit + 10) c)
+                      (build_list env (S depth) (length pre + length lit + 10 + length (print_expr c) + 2) body)
+                :: build_more env depth (length pre + length lit + 10 + length (print_expr c) + 2 + length (print_nodes body)) more))
+             (length pre) items
+             = ROk (lit ++ ENode ctx (TIf c body more), length pre + length lit + length (print_node (TIf c body more)), items')
+             /\ agree depth items items').
+      { intros (i & A & B). exists i. split; [reflexivity|]. split; assumption. }
+      assert (Hlen : length content = length pre + length lit + length (print_node (TIf c body more)) + length post)
+        by (rewrite Hc; repeat rewrite app_length; lia).
+      rewrite rtag_if. rewrite wslice_eq by lia. cbn [rbind].
+      rewrite (sub_lit content pre lit (print_node (TIf c body more) ++ post)) by (try exact Hc; reflexivity).
+      rewrite print_node_TIf in Hc.
+      set (prc := pre ++ lit ++ s_if_open ++ print_expr c ++ s_tag_close).
+      assert (Hl : length prc = length pre + length lit + 10 + length (print_expr c) + 2)
+        by (unfold prc; repeat rewrite app_length; cbn [length s_if_open s_tag_close]; lia).
+      assert (Hpk : exists items', rpick items
+               (PCase (length pre + length lit + 10 + length (print_expr c) + 2)
+                      (length pre + length lit + 10 + length (print_expr c) + 2 + length (print_nodes body))
+                      (qexpr_of env (length pre + length lit + 10) c)
+                      (build_list env (S depth) (length pre + length lit + 10 + length (print_expr c) + 2) body)
+                :: build_more env depth (length pre + length lit + 10 + length (print_expr c) + 2 + length (print_nodes body)) more)
+               = ROk (ENode ctx (TIf c body more), items') /\ agree depth items items').
+      { rewrite render_pick_cons.
+        rewrite (qexpr_of_match _ env (length pre + length lit + 10) c true
+                   (fun ex => match jv_cond content root (length pre + length lit + 10 + length (print_expr c) + 2) ex items with Some true => true | _ => false end)).
+        unfold jv_cond.
+        assert (Hq := q_top_expr env ctx items c (pre ++ lit ++ s_if_open) (s_tag_close ++ print_nodes body ++ print_more more ++ s_if_end ++ post)).
+        repeat rewrite app_length in Hq. cbn [length s_if_open] in Hq.
+        replace (length pre + (length lit + 10)) with (length pre + length lit + 10) in Hq by lia.
+        rewrite Hq; [| |exact Hwc|exact HR].
+        2:{ rewrite Hc. assoc. }
+        rewrite expand_node_TIf. unfold truth.
+        assert (Hbody : exists items', rlist (build_list env (S depth) (length pre + length lit + 10 + length (print_expr c) + 2) body)
+                                 (length pre + length lit + 10 + length (print_expr c) + 2)
+                                 (length pre + length lit + 10 + length (print_expr c) + 2 + length (print_nodes body)) items
+                               = ROk (ENodes ctx body, items') /\ agree depth items items').
+        { assert (Hcb : content = prc ++ [] ++ print_nodes body ++ (print_more more ++ s_if_end ++ post)) by (rewrite Hc; unfold prc; assoc).
+          destruct (list_sem body Hb (S depth) env ctx items prc [] _ Hwb Hcb HR (env_ok_S _ _ He)) as (i' & E & Ha).
+          cbn [length app] in E. rewrite Nat.add_0_r in E. rewrite Hl in E. exists i'. split; [exact E|apply (agree_le depth (S depth)); [lia|exact Ha]]. }
+        assert (Hmore : exists items', rpick items (build_more env depth (length pre + length lit + 10 + length (print_expr c) + 2 + length (print_nodes body)) more)
+                               = ROk (pick_e auto w root ctx more, items') /\ agree depth items items').
+        { replace (length pre + length lit + 10 + length (print_expr c) + 2 + length (print_nodes body)) with (length (prc ++ print_nodes body))
+            by (rewrite app_length, Hl; reflexivity).
+          apply (pick_sem more Hm depth env ctx items (prc ++ print_nodes body) (s_if_end ++ post) Hwm); [rewrite Hc; unfold prc; assoc|exact HR|exact He]. }
+        destruct (eval_expr root ctx c) as [z|]; [destruct (z >? 0)%Z; [exact Hbody|exact Hmore]|exact Hmore]. }
+      destruct Hpk as (items' & Epk & Ha).
+      rewrite (qexpr_of_match _ env (length pre + length lit + 10) c (ROk (lit, length pre + length lit + length (print_node (TIf c body more)), items))
+                 (fun ex => rbind (rpick items (PCase (length pre + length lit + 10 + length (print_expr c) + 2)
+                      (length pre + length lit + 10 + length (print_expr c) + 2 + length (print_nodes body)) ex
+                      (build_list env (S depth) (length pre + length lit + 10 + length (print_expr c) + 2) body)
+                   :: build_more env depth (length pre + length lit + 10 + length (print_expr c) + 2 + length (print_nodes body)) more))
+                   (fun res => ROk (lit ++ fst res, length pre + length lit + length (print_node (TIf c body more)), snd res)))).
+      rewrite Epk. cbn [rbind fst snd]. exists items'. split; [reflexivity|exact Ha].
     - intros set val group sort body Hb depth env ctx items pre lit post Hwf _ Hc HR He.
       cbn [wf_node1] in Hwf.
       apply andb_prop in Hwf. destruct Hwf as [Hwf Hbody]. apply andb_prop in Hwf. destruct Hwf as [Hwf Hhl].
